@@ -145,8 +145,8 @@ func vhGenuineMessage(v3 bool, textLen int) *vhScene {
 }
 
 // vhMutationPos picks the byte to corrupt: quick = first/last byte of every
-// field of the authenticated part and of the MAC; thorough = every byte of the
-// body up to and including the MAC.  (The header bytes are covered by
+// field of the authenticated part and of the MAC; thorough = every byte of every field and of the MAC,
+// every 16th byte of the ciphertext.  (The header bytes are covered by
 // VH_C02_header: changing them yields a different kind of message.)
 func vhMutationPos(s *vhScene) (int, bool) {
 	h, m := s.hdrLen, vhMPILen
@@ -157,9 +157,13 @@ func vhMutationPos(s *vhScene) (int, bool) {
 	ps := []int{h, h + 1, h + 4, h + 5, h + 8, h + 9, h + 11, h + 13, h + 13 + m - 1, h + 13 + m, h + 13 + m + 7,
 		h + 13 + m + 8, h + 13 + m + 11, encStart, encStart + 1, encStart + 130, macStart - 1, macStart, macStart + 10, s.macEnd - 1}
 	if vTier() == 1 {
+		// every byte of the header fields, key ids, DH value, counter, length
+		// field and MAC; every 16th byte of the (256-byte padded) ciphertext
 		ps = nil
 		for i := h; i < s.macEnd; i++ {
-			ps = append(ps, i)
+			if i < encStart || i >= macStart || (i-encStart)%16 == 0 || i == macStart-1 {
+				ps = append(ps, i)
+			}
 		}
 	}
 	p := ps[vChoose("pos", len(ps))]
